@@ -20,6 +20,9 @@
 // S: elements "e x<hex bytes>"; LSDString w, MSDString, Quick3WayString, VQuick3WayString (hook).
 // Native (I/U/S): slices.Sort, compared with the specification-level sorted list (glue: the order the
 // theorems talk about is the language's native order).
+// win pre post capx (any header): the following calls get the window whole[pre : pre+n : pre+n+capx] of a
+// larger backing array with guard elements around it instead of a fresh slice; a call that changes a
+// guard element is reported as OUTSIDE:... (a sort owns only the slice it is given).
 // A panic is reported as PANIC, a call that does not return within the deadline as HANG.
 package main
 
@@ -173,7 +176,10 @@ func parseDraws(s string) []int {
 // elements before and post guard elements behind it (capx <= post; capx == post is the two-index
 // slice whole[pre:pre+n], pre == 0 is a prefix buf[:n] of a larger buffer).  After every call the
 // guard elements must be unchanged: a sort owns only the slice it was given.
-type layout struct{ on bool; pre, post, capx int }
+type layout struct {
+	on              bool
+	pre, post, capx int
+}
 
 type state struct {
 	head string
@@ -186,7 +192,8 @@ type state struct {
 func mkWin[T any](lay layout, elems []T, g func(int) T) (whole, win []T) {
 	n := len(elems)
 	if !lay.on {
-		win = append([]T(nil), elems...)
+		win = make([]T, n) // cap == len exactly (append would round the capacity up)
+		copy(win, elems)
 		return win, win
 	}
 	whole = make([]T, lay.pre+n+lay.post)
@@ -261,14 +268,12 @@ func (st *state) exec(w *tr.W, op string) {
 		return
 	}
 	var res string
-	var out string
+	check := func() string { return "" } // guard elements around the window, set per element type
 	switch st.head {
 	case "C", "Cd", "C1", "Cr", "Cb":
 		cmpKT := cmpFor(st.head)
 		whole, a := mkWin(st.lay, st.c, guardKT)
-		defer func() {}()
-		chk := func() { out = outside(st.lay, whole, len(st.c), guardKT) }
-		defer chk()
+		check = func() string { return outside(st.lay, whole, len(st.c), guardKT) }
 		sorter := func(g func([]kt)) string { return guard(func() string { g(a); return showKT(a) }) }
 		switch f[0] {
 		case "Selection":
@@ -308,10 +313,12 @@ func (st *state) exec(w *tr.W, op string) {
 			res = "?"
 		}
 	case "I":
-		a := make([]int, len(st.u))
+		el := make([]int, len(st.u))
 		for i, v := range st.u {
-			a[i] = int(int64(v))
+			el[i] = int(int64(v))
 		}
+		whole, a := mkWin(st.lay, el, guardInt)
+		check = func() string { return outside(st.lay, whole, len(el), guardInt) }
 		back := func() string {
 			u := make([]uint64, len(a))
 			for i, v := range a {
@@ -330,10 +337,12 @@ func (st *state) exec(w *tr.W, op string) {
 			res = "?"
 		}
 	case "U":
-		a := make([]uint, len(st.u))
+		el := make([]uint, len(st.u))
 		for i, v := range st.u {
-			a[i] = uint(v)
+			el[i] = uint(v)
 		}
+		whole, a := mkWin(st.lay, el, guardUint)
+		check = func() string { return outside(st.lay, whole, len(el), guardUint) }
 		back := func() string {
 			u := make([]uint64, len(a))
 			for i, v := range a {
@@ -352,7 +361,8 @@ func (st *state) exec(w *tr.W, op string) {
 			res = "?"
 		}
 	default:
-		a := append([]string(nil), st.s...)
+		whole, a := mkWin(st.lay, st.s, guardStr)
+		check = func() string { return outside(st.lay, whole, len(st.s), guardStr) }
 		switch f[0] {
 		case "MSDString":
 			res = guard(func() string { radixsort.MSDString(a); return showS(a) })
@@ -367,6 +377,11 @@ func (st *state) exec(w *tr.W, op string) {
 			res = guard(func() string { radixsort.LSDString(a, wd); return showS(a) })
 		default:
 			res = "?"
+		}
+	}
+	if res != "HANG" && res != "?" {
+		if o := check(); o != "" {
+			res = o // the call wrote outside the slice it was given
 		}
 	}
 	w.Op(op, res)
@@ -388,6 +403,20 @@ func runCase(w *tr.W, head string, ops []string) {
 
 // ---------------------------------------------------------------- case builders
 
+// layoutOp cycles through the slice layouts of the generated cases: a fresh slice (cap == len), a window
+// whole[lo:hi] in the middle of a larger array, a prefix buf[:k], three-index slices with cap > len and
+// with cap == len but live neighbours.  Five of eight cases run on a window.
+var layoutCounter int
+
+func layoutOp() []string {
+	layoutCounter++
+	l := []string{"", "win 1 2 2", "", "win 0 1 1", "win 2 3 1", "", "win 3 1 0", "win 0 3 3"}[layoutCounter%8]
+	if l == "" {
+		return nil
+	}
+	return []string{l}
+}
+
 func draws(r *rng.R, n int) string {
 	if n == 0 {
 		return "-"
@@ -406,7 +435,7 @@ var cmpHeads = []string{"C", "Cd", "C1", "Cr", "Cb"}
 
 func caseCh(w *tr.W, r *rng.R, head string, keys []int, full bool) {
 	n := len(keys)
-	var ops []string
+	ops := layoutOp()
 	for i, k := range keys {
 		ops = append(ops, fmt.Sprintf("e %d %d", k, i))
 	}
@@ -445,7 +474,7 @@ func exhaustiveC(w *tr.W, r *rng.R, head string, maxLen int, vals []int) {
 }
 
 func caseU(w *tr.W, head string, vals []uint64) {
-	var ops []string
+	ops := layoutOp()
 	for _, v := range vals {
 		ops = append(ops, fmt.Sprintf("e %016x", v))
 	}
@@ -472,7 +501,7 @@ func exhaustiveU(w *tr.W, head string, maxLen int, vals []uint64) {
 }
 
 func caseS(w *tr.W, vals []string, lsdW int) {
-	var ops []string
+	ops := layoutOp()
 	for _, v := range vals {
 		ops = append(ops, "e "+hexS(v))
 	}
